@@ -11,15 +11,15 @@
 EXTENDS Integers, Sequences, FiniteSets, TLC, Json
 
 TLog == ndJsonDeserialize("trace.ndjson")
-VARIABLES l, startCalls, stopCalls, cancels, okStart, okStop, open, bad, failedStop, voidStops
-vars == <<l, startCalls, stopCalls, cancels, okStart, okStop, open, bad, failedStop, voidStops>>
+VARIABLES l, startCalls, stopCalls, cancels, okStart, okStop, open, bad, failedStop, voidStops, startFailed
+vars == <<l, startCalls, stopCalls, cancels, okStart, okStop, open, bad, failedStop, voidStops, startFailed>>
 
-Fresh == startCalls = 0 /\ stopCalls = 0 /\ cancels = 0 /\ okStart = 0 /\ okStop = 0 /\ open = <<>> /\ failedStop = FALSE /\ voidStops = 0
+Fresh == startCalls = 0 /\ stopCalls = 0 /\ cancels = 0 /\ okStart = 0 /\ okStop = 0 /\ open = <<>> /\ failedStop = FALSE /\ voidStops = 0 /\ startFailed = FALSE
 Init == l = 1 /\ Fresh /\ bad = ""
 Ev == TLog[l]
 Put(f, k, v) == [x \in DOMAIN f \cup {k} |-> IF x = k THEN v ELSE f[x]]
 
-Reset == Ev.e = "Reset" /\ startCalls' = 0 /\ stopCalls' = 0 /\ cancels' = 0 /\ okStart' = 0 /\ okStop' = 0 /\ open' = <<>> /\ failedStop' = FALSE /\ voidStops' = 0 /\ UNCHANGED bad
+Reset == Ev.e = "Reset" /\ startCalls' = 0 /\ stopCalls' = 0 /\ cancels' = 0 /\ okStart' = 0 /\ okStop' = 0 /\ open' = <<>> /\ failedStop' = FALSE /\ voidStops' = 0 /\ startFailed' = FALSE /\ UNCHANGED bad
 
 \* at call time remember what had already happened: decides which results are acceptable
 Call ==
@@ -29,7 +29,7 @@ Call ==
     /\ startCalls' = startCalls + (IF Ev.op = "start" THEN 1 ELSE 0)
     /\ stopCalls' = stopCalls + (IF Ev.op = "stop" THEN 1 ELSE 0)
     /\ cancels' = cancels + (IF Ev.op = "cancel" THEN 1 ELSE 0)
-    /\ UNCHANGED <<okStart, okStop, bad, failedStop, voidStops>>
+    /\ UNCHANGED <<okStart, okStop, bad, failedStop, voidStops, startFailed>>
 
 Ret ==
     /\ Ev.e = "Ret"
@@ -38,8 +38,12 @@ Ret ==
            \* stop calls other than this one that may have stopped the system: a Stop that was rejected because the system
            \* had not been started (voidStops) changed nothing and explains nothing
            othersStop == stopCalls - (IF Ev.op = "stop" THEN 1 ELSE 0) - voidStops
+           \* a Start that fails in its first step (the scenario says so: fail = 1) leaves a stopped system behind; what the
+           \* later calls answer is not judged, only that nothing hangs and nothing is left running
            verdict ==
-             CASE Ev.op = "start" /\ Ev.r = "ok" -> IF okStart >= 1 THEN "StartOnce" ELSE ""
+             CASE Ev.op = "start" /\ Ev.r = "start-failed" -> IF Ev.fail = 1 THEN "" ELSE "Result.start"
+               [] startFailed -> ""
+               [] Ev.op = "start" /\ Ev.r = "ok" -> IF okStart >= 1 THEN "StartOnce" ELSE ""
                [] Ev.op = "start" /\ Ev.r = "already-started" -> IF othersStart = 0 THEN "Result.start" ELSE ""
                [] Ev.op = "start" /\ Ev.r = "already-stopped" -> IF othersStop = 0 /\ cancels = 0 THEN "Result.start" ELSE ""
                [] Ev.op = "start" -> "Result.start"
@@ -57,19 +61,20 @@ Ret ==
                [] Ev.op = "start" /\ c.okStartBefore >= 1 /\ Ev.r \notin {"already-started", "already-stopped"} -> "AfterStart.start"
                [] Ev.op = "stop" /\ c.okStopBefore >= 1 /\ Ev.r # "already-stopped" -> "AfterStop.stop"
                [] OTHER -> ""
-       IN bad' = IF bad # "" THEN bad ELSE IF verdict # "" THEN verdict ELSE seq
+       IN bad' = IF bad # "" THEN bad ELSE IF verdict # "" THEN verdict ELSE IF startFailed \/ Ev.r = "start-failed" THEN "" ELSE seq
     /\ okStart' = okStart + (IF Ev.op = "start" /\ Ev.r = "ok" THEN 1 ELSE 0)
     /\ okStop' = okStop + (IF Ev.op = "stop" /\ Ev.r = "ok" THEN 1 ELSE 0)
     /\ open' = [x \in DOMAIN open \ {Ev.p} |-> open[x]]
     /\ failedStop' = (failedStop \/ (Ev.op = "stop" /\ Ev.r = "stop-failed"))
     /\ voidStops' = voidStops + (IF Ev.op = "stop" /\ Ev.r = "not-started" THEN 1 ELSE 0)
+    /\ startFailed' = (startFailed \/ (Ev.op = "start" /\ Ev.r = "start-failed"))
     /\ UNCHANGED <<startCalls, stopCalls, cancels>>
 
-Hang == Ev.e = "Hang" /\ bad' = (IF bad = "" THEN "NeverHangs" ELSE bad) /\ UNCHANGED <<startCalls, stopCalls, cancels, okStart, okStop, open, failedStop, voidStops>>
+Hang == Ev.e = "Hang" /\ bad' = (IF bad = "" THEN "NeverHangs" ELSE bad) /\ UNCHANGED <<startCalls, stopCalls, cancels, okStart, okStop, open, failedStop, voidStops, startFailed>>
 \* Stop returns within its time-out: the wait for the tree (alive = milliseconds spent, gor = time-out given, <= 0 means at once)
 StopWaited == /\ Ev.e = "StopWaited"
               /\ bad' = IF bad = "" /\ Ev.alive > (IF Ev.gor > 0 THEN Ev.gor ELSE 0) + 400 THEN "StopWithinTimeout" ELSE bad
-              /\ UNCHANGED <<startCalls, stopCalls, cancels, okStart, okStop, open, failedStop, voidStops>>
+              /\ UNCHANGED <<startCalls, stopCalls, cancels, okStart, okStop, open, failedStop, voidStops, startFailed>>
 
 \* Up alive gor: a system that was started and that nobody stopped or cancelled was observed at the end of the run:
 \* alive = actors registered, gor = 1 if a job scheduled then was delivered
@@ -77,7 +82,7 @@ Up == /\ Ev.e = "Up"
       /\ bad' = IF bad # "" THEN bad
                 ELSE IF okStart >= 1 /\ okStop = 0 /\ cancels = 0 /\ (Ev.alive = 0 \/ Ev.gor = 0) THEN "StartedSystemKeepsRunning"
                 ELSE ""
-      /\ UNCHANGED <<startCalls, stopCalls, cancels, okStart, okStop, open, failedStop, voidStops>>
+      /\ UNCHANGED <<startCalls, stopCalls, cancels, okStart, okStop, open, failedStop, voidStops, startFailed>>
 
 Final ==
     /\ Ev.e = "Final"
@@ -85,8 +90,9 @@ Final ==
               ELSE IF DOMAIN open # {} \/ Ev.pend > 0 THEN "NeverHangs"
               ELSE IF ~failedStop /\ okStart >= 1 /\ (okStop >= 1 \/ cancels >= 1) /\ Ev.alive > 0 THEN "StopTerminatesActors"
               ELSE IF ~failedStop /\ okStart >= 1 /\ (okStop >= 1 \/ cancels >= 1) /\ Ev.gor > 0 THEN "NoGoroutineLeft"
+              ELSE IF startFailed /\ okStart = 0 /\ Ev.gor > 0 THEN "NoGoroutineLeft"
               ELSE ""
-    /\ UNCHANGED <<startCalls, stopCalls, cancels, okStart, okStop, open, failedStop, voidStops>>
+    /\ UNCHANGED <<startCalls, stopCalls, cancels, okStart, okStop, open, failedStop, voidStops, startFailed>>
 
 Next == l <= Len(TLog) /\ l' = l + 1 /\ (Reset \/ Call \/ Ret \/ Hang \/ StopWaited \/ Up \/ Final)
 Spec == Init /\ [][Next]_vars
